@@ -572,8 +572,13 @@ Definition created_times (outs : list rout) : list Z :=
 (* sync (172-217) reads the CronJob from the informer cache (179) and swallows a
    failed UpdateStatus (211-213: it returns nil, syncErr with syncErr == nil):
    a reconcile may start from ANY older status [st_in], and its write-back may
-   be lost.  The API server's jobs are read through the job client, so they are
-   always current. *)
+   be lost.  The JOBS the clean-up sees also come from an informer: the list of
+   jobs of this CronJob (getJobsByCronJob, handler 164) and the look-up of an
+   active reference (handler 266) read cc.jobLister - not the API server, where
+   upstream Kubernetes does a live GET - so they may lag behind as well
+   ([cleanup3] / [Lagged] below; [cleanup2] is the case lister = API server).
+   Only Create, the Replace look-up and the deletes go through the job client
+   and see the server as it is. *)
 (* processCtlJobAndActiveJob, first loop (243-260), which matters once the
    status handed in can be older than the API server's: for an unfinished job
    of this CronJob that the status does not reference the controller re-reads
@@ -599,8 +604,29 @@ Definition reconcile_from (fuel : nat) (s : cstate) (st_in : cstatus) (persist_o
   let persisted := if (o_err o =? E_OK) && o_upd o && persist_ok then st2 else s_status s in
   (mkState (s_spec s) persisted jobs2 uid2, o).
 
+(* the clean-up with a job lister that may differ from the API server's jobs:
+   the jobs of this CronJob, their phases and the look-up of active references
+   are the LISTER's (an older snapshot: a job just created is missing, a job
+   already deleted or finished still shows as it was); deletes hit the server *)
+Definition cleanup3 (spec : cspec) (st : cstatus) (srv : list jref) (lister jobs : list job)
+  : cstatus * list job * list Z * bool :=
+  let mine := mine_of lister in
+  let '(st1, jobs1, hd, upd1) := process_finished spec st mine jobs in
+  if switched mine (st_active st1) srv
+  then let '(_, upd2) := clean_stale lister mine srv in (st1, jobs1, hd, upd1 || upd2)
+  else let '(a2, upd2) := clean_stale lister mine (st_active st1) in (set_active st1 a2, jobs1, hd, upd1 || upd2).
+
+Definition reconcile_lag (fuel : nat) (s : cstate) (st_in : cstatus) (lister : list job) (persist_ok : bool)
+           (now : Z) (fail_create : bool) : cstate * rout :=
+  let '(st1, jobs1, hd, upd1) := cleanup3 (s_spec s) st_in (st_active (s_status s)) lister (s_jobs s) in
+  let '(st2, jobs2, uid2, o) := decide fuel (s_spec s) st1 jobs1 (s_next_uid s) now fail_create upd1 hd in
+  let persisted := if (o_err o =? E_OK) && o_upd o && persist_ok then st2 else s_status s in
+  (mkState (s_spec s) persisted jobs2 uid2, o).
+
 Inductive op2 :=
 | Fresh (o : op)
+| Lagged (st_in : option cstatus) (lister : list job) (persist_ok : bool) (now : Z) (fail_create : bool)
+    (* the job lister shows [lister]; the status is the current one (None) or an older one *)
 | Stale (st_in : cstatus) (persist_ok : bool) (now : Z) (fail_create : bool)
 | LostWrite (now : Z) (fail_create : bool).   (* reads the current status, its write-back is lost *)
 
@@ -609,6 +635,9 @@ Definition step2 (fuel : nat) (s : cstate) (o : op2) : cstate * option rout :=
   | Fresh o => step fuel s o
   | Stale st_in ok now fc => let '(s', r) := reconcile_from fuel s st_in ok now fc in (s', Some r)
   | LostWrite now fc => let '(s', r) := reconcile_from fuel s (s_status s) false now fc in (s', Some r)
+  | Lagged st_in lister ok now fc =>
+    let '(s', r) := reconcile_lag fuel s (match st_in with Some st => st | None => s_status s end) lister ok now fc in
+    (s', Some r)
   end.
 
 Fixpoint run2 (fuel : nat) (s : cstate) (ops : list op2) : cstate * list rout :=
